@@ -55,7 +55,9 @@ func (e EventJSONs) UntrustedEvents(roomVersion RoomVersion) []PDU {
 		event, err := verImpl.NewEventFromUntrustedJSON(js)
 		switch e := err.(type) {
 		case EventValidationError:
-			if !e.Persistable {
+			// A persistable error comes with the event, unless it was found
+			// before there was one (an overlong room ID).
+			if !e.Persistable || event == nil {
 				continue
 			}
 		case nil:
